@@ -1280,6 +1280,13 @@ def gen_views(g, tier):
                 raws += [[0] * size, [0xFF] * size]
             for raw in raws:
                 g.add("view get %s %s" % (name, hx(raw)), "get:" + name)
+            # backing buffers shorter (and longer) than the header: the accessor panics exactly when the
+            # field's highest byte is missing
+            for n in range(0, size + 3):
+                if n != size:
+                    raw = g.rbytes(n)
+                    g.add("view get %s %s" % (name, hx(raw)), "get-other-length:" + name)
+                    g.add("view set %s %x %s" % (name, r.randrange(256), hx(raw)), "set-other-length:" + name)
             # setters: every 8-bit value for single-byte fields on several raws; boundary + random for wide ones
             if lay is not None:
                 vals = range(256)
